@@ -2,7 +2,7 @@
    Theorems about the scope machinery and the loop-range function of the visitor model; the
    model is tied to /repo by the correspondence run of ./check C08. *)
 From Coq Require Import ZArith List Bool String.
-From Verif Require Import BGate PyVal Ast State Unroll ResolveProofs ScopeProofs ControlProofs StackProofs DefProofs Depth DepthModel FixProofs LoopProofs BroadcastProofs ModUnrollProofs LoopModProofs GateDefProofs.
+From Verif Require Import BGate PyVal Ast State Unroll ResolveProofs ScopeProofs ControlProofs StackProofs DefProofs Depth DepthModel FixProofs LoopProofs BroadcastProofs ModUnrollProofs LoopModProofs BranchProofs GateDefProofs.
 Import ListNotations.
 Open Scope Z_scope.
 
@@ -272,3 +272,12 @@ Example C08_general_loop_example :
   option_map (fun r => List.length (fst r)) (gjudge p) = Some 18%nat /\
   match unroll_v false [] p, gjudge p with Ok o, Some (e, _) => list_eqb stmt_eqb (o_stmts o) e | _, _ => false end = true.
 Proof. vm_compute. split; reflexivity. Qed.
+
+(* MEASUREMENT-CONDITIONED BLOCKS IN GENERAL (Lang/BranchProofs.v, inside the judgement `gjudge`): the statements of the two blocks
+   may be flat operations or any library gate under inv / pow(k) with closed parameters on registers, slices or bits; the
+   conditional is kept, on the same register bit or register value, with BOTH blocks unrolled ("a measured if keeps both arms") *)
+Theorem C08_measured_branch_with_general_blocks check_only f env G s stm out evs :
+  Regs env s -> gates s = G -> branch_ok env G stm = Some (out, evs) ->
+  exists s', visit_stmt check_only [] (S (S f)) stm s = Ok ((if check_only then [] else out), s') /\ DE s s' /\ Dstep s s' evs.
+Proof. exact (branch_ok_fix check_only f env G s stm out evs). Qed.
+Print Assumptions C08_measured_branch_with_general_blocks.
